@@ -111,7 +111,8 @@ def gen_T08():
     need("if 'echo-message' in caps and 'labeled-response' not in self.state.capabilities_ack:" in src_req, '_requestCaps echo-message guard changed')
     need("MAX_LINE_SIZE - len('CAP REQ :')" in src_req, '_requestCaps wrap width changed')
     src_try = ast.unparse(find_def(t, 'tryNextSaslMechanism', 'Irc'))
-    need('elif conf.supybot.networks.get(self.network).sasl.required():' in src_try, 'tryNextSaslMechanism: required branch changed')
+    need("elif conf.supybot.networks.get(self.network).sasl.required():\n        log.error('None of the configured SASL mechanisms succeeded, aborting connection.')\n"
+         "        self.driver.reconnect(wait=True)\n    else:" in src_try, 'tryNextSaslMechanism: required branch changed')
     src_up = ast.unparse(find_def(t, 'capUpkeep', 'Irc'))
     need('if not capabilities_responded <= self.state.capabilities_req:' in src_up
          and 'elif capabilities_responded == self.state.capabilities_req:' in src_up, 'capUpkeep comparison changed')
